@@ -12,6 +12,10 @@ OBLIGATIONS = [
        unwind=4, min_covers=3, checks=CKL, timeout=600, functions=('call_rcu_thread',),
        assumptions=('the indirect call rhp->func(rhp) is rewritten (must-fire) to a checked direct call of the harness callback',),
        desc='one iteration of call_rcu_thread: splice the whole queue, one grace period, every spliced callback exactly once in FIFO order with its own rcu_head and only after a grace period that began after it was queued; a callback enqueued during the grace period is NOT run in this iteration; next pointer read before the callback (which poisons its node); STOP acknowledged'),
+    Ob(name='C03.O2.helper_sleep', harness=H, entry='h_helper_sleep', defines=D, mode='legacy', rules=('callrcu',), tier='B', bound='three passes: a callback enqueued during a grace period (queue not empty at the sleep decision), one sleep / wake-up cycle, one callback enqueued while the helper sleeps; loop unwound 5x',
+       replace=('urcu_memb_synchronize_rcu', 'set_thread_cpu_affinity', 'urcu_memb_register_thread', 'urcu_memb_unregister_thread'),
+       unwind=5, cbmc_flags=('--no-unwinding-assertions',), min_covers=1, checks=CKL, timeout=600, functions=('call_rcu_thread', 'call_rcu_wait'),
+       desc='helper sleep path: futex decremented, full barrier, THEN the queue is tested; sleeps only on -1 with the queue seen empty; a callback enqueued while it sleeps (producer: enqueue, barrier, futex -1 -> 0, wake) is run once after a grace period'),
     Ob(name='C03.O4.data_free', harness=H, entry='h_data_free', defines=D, mode='legacy', tier='B', bound='<= 2 leftover callbacks, <= 1 callback already on the default helper',
        unwind=4, cbmc_flags=('--no-unwinding-assertions',), min_covers=2, checks=CKL, timeout=600, functions=('_call_rcu_data_free',),
        desc='_call_rcu_data_free: STOP/wake/wait STOPPED first; leftovers spliced behind the default helper\'s own callbacks in order, each once; qlen transferred; default woken; helper unlinked and freed once; join only on request'),
@@ -29,6 +33,10 @@ for e, fns, d in (
 OBLIGATIONS.append(Ob(name='C03.O3.free_all_cpu', harness=SEL, entry='h_free_all', defines=D + ('FREE_ALL',), mode='legacy', replace=('get_possible_cpus_array_len', 'urcu_memb_synchronize_rcu', 'urcu_memb_call_rcu_data_free'),
     unwind=5, min_covers=2, checks=CK, functions=('free_all_cpu_call_rcu_data',), timeout=300,
     desc='free_all_cpu_call_rcu_data on tables of 1..3 CPUs with any occupancy: all per-CPU helpers are unpublished, THEN a grace period, THEN each is freed exactly once (a helper is never freed while a call_rcu() that looked it up may still enqueue on it)'))
+# futex-wait loops of the helper / of rcu_barrier (shared with C02; late import via engine/check.py)
+def _shared():
+    from obligations import C02 as _c02
+    return [o for o in _c02.OBLIGATIONS if o.name in ('C02.O3.call_rcu_wait',)]
 META = {
     'level': 'other',
     'explanation': 'C03 quantifies over schedules of enqueuers, helper threads and grace periods. Contracts decide the per-function obligations: _call_rcu enqueues exactly once (FIFO, wake-up handshake); one helper iteration = splice all, one grace period, each spliced callback once in order with its own rcu_head, never a callback enqueued during that grace period; a freed helper hands its leftovers to the default helper once and in order. Batches and leftovers are bounded (<= 3); the unbounded queue contracts are C10.',
